@@ -1,5 +1,6 @@
 import NurbsVerif.Model.Basis
 import NurbsVerif.Model.Eval
+import NurbsVerif.Model.Grid
 import NurbsVerif.Driver.Parse
 /- handlers for span / basis / knot vector / evaluation / derivative ops (C01, C02, C03, C17, C18) -/
 namespace Drv
@@ -98,15 +99,14 @@ def handleBasic : List String → Option String
       if !(okKv p P.length U) || dl ≤ 0 then return "ERR"
       let n := sampleSize dl
       let ks := linspace (fn U p) (fn U P.length) n tolMult
-      return showPts (ks.map (fun u => doProject (rat == "1") (curvePoint p (fn U) P u)))
+      return showPts (curveGrid (rat == "1") p (fn U) P ks)
   | ["sgrid", rat, pu, pv, uus, uvs, su, sv, ps, du, dv] => do
       let pu ← pu.toNat?; let pv ← pv.toNat?; let Uu ← parseList uus; let Uv ← parseList uvs
       let su ← su.toNat?; let sv ← sv.toNat?; let P ← parsePts ps; let du ← parseRat du; let dv ← parseRat dv
       if !(okKv pu su Uu && okKv pv sv Uv && P.length == su * sv) || du ≤ 0 || dv ≤ 0 then return "ERR"
       let kus := linspace (fn Uu pu) (fn Uu su) (sampleSize du) tolMult
       let kvs := linspace (fn Uv pv) (fn Uv sv) (sampleSize dv) tolMult
-      return showPts (kus.flatMap (fun u => kvs.map (fun v =>
-        doProject (rat == "1") (surfacePoint pu pv (fn Uu) (fn Uv) su sv P u v))))
+      return showPts (surfaceGrid (rat == "1") pu pv (fn Uu) (fn Uv) su sv P kus kvs)
   | ["vgrid", rat, pu, pv, pw, uus, uvs, uws, su, sv, sw, ps, du, dv, dw] => do
       let pu ← pu.toNat?; let pv ← pv.toNat?; let pw ← pw.toNat?
       let Uu ← parseList uus; let Uv ← parseList uvs; let Uw ← parseList uws
@@ -116,8 +116,7 @@ def handleBasic : List String → Option String
       let kus := linspace (fn Uu pu) (fn Uu su) (sampleSize du) tolMult
       let kvs := linspace (fn Uv pv) (fn Uv sv) (sampleSize dv) tolMult
       let kws := linspace (fn Uw pw) (fn Uw sw) (sampleSize dw) tolMult
-      return showPts (kus.flatMap (fun u => kvs.flatMap (fun v => kws.map (fun w =>
-        doProject (rat == "1") (volumePoint pu pv pw (fn Uu) (fn Uv) (fn Uw) su sv sw P u v w)))))
+      return showPts (volumeGrid (rat == "1") pu pv pw (fn Uu) (fn Uv) (fn Uw) su sv sw P kus kvs kws)
   | _ => none
 
 end Drv
